@@ -125,6 +125,18 @@ func genMetrics(rng *rand.Rand, o *afmOpts, maxGlyphs int) *afm.Metrics {
 		}
 	}
 	m.FontName = genToken(rng)
+	switch rng.IntN(8) {
+	case 0:
+		// the name of a subset font as PDF files carry it, or of a font family member
+		tag := make([]byte, 6)
+		for i := range tag {
+			tag[i] = byte('A' + rng.IntN(26))
+		}
+		m.FontName = string(tag) + "+" + []string{"Demo-Regular", "X", m.FontName, "ABCDEF+Nested", ""}[rng.IntN(5)]
+		o.f("font name with a subset tag")
+	case 1:
+		m.FontName = []string{"Times-Roman", "Helvetica-BoldOblique", "A+B", "+", "a.b-c_d", "Font#20Name", "MT,Bold", "1234", "-"}[rng.IntN(9)]
+	}
 	m.FullName = genWords(rng)
 	m.Version = genWords(rng)
 	m.Notice = genWords(rng)
@@ -139,6 +151,21 @@ func genMetrics(rng *rand.Rand, o *afmOpts, maxGlyphs int) *afm.Metrics {
 	m.Descent = num(-500, 0)
 	m.UnderlinePosition = num(-300, 0)
 	m.UnderlineThickness = num(0, 200)
+	if rng.IntN(5) == 0 {
+		// header values of exactly zero (a reader cannot tell them from absent
+		// entries and may be tempted to derive them from the glyphs H, x, d, p)
+		for _, p := range []*float64{&m.CapHeight, &m.XHeight, &m.Ascent, &m.Descent, &m.UnderlinePosition, &m.UnderlineThickness} {
+			if rng.IntN(2) == 0 {
+				*p = 0
+			}
+		}
+		for _, nm := range []string{"H", "x", "d", "p", "X", "h"} {
+			if rng.IntN(3) > 0 && m.Glyphs[nm] == nil {
+				m.Glyphs[nm] = &afm.GlyphInfo{WidthX: num(200, 900), BBox: rect.Rect{LLx: num(0, 50), LLy: num(-250, 0), URx: num(300, 700), URy: num(400, 800)}}
+			}
+		}
+		o.f("header values of exactly zero next to the glyphs H, x, d, p")
+	}
 	m.ItalicAngle = float64(rng.IntN(9001)-4500) / 100
 	switch rng.IntN(6) {
 	case 0:
